@@ -102,6 +102,11 @@ PROPS["C10"].setdefault("assumptions", []).extend(tierb_async.ASSUME_TEXT[:3])
 for _p in ("C03", "C06"):
     PROPS[_p]["stages"].append(tierb_c12.stage)
 
+from . import tierc_kernel  # noqa: E402
+# scalar sinc kernel + table construction under Verus contracts, all sizes (replaces reliance on the bounded Kani contract)
+PROPS["C03"]["stages"].append(tierc_kernel.stage)
+PROPS["C03"].setdefault("assumptions", []).extend(tierc_kernel.ASSUMPTIONS)
+
 from . import tierb_misc  # noqa: E402
 PROPS["C10"]["stages"].append(tierb_misc.fft_reset_stage)
 
